@@ -283,6 +283,9 @@ pub unsafe fn s_fut_recv<RW: QueueRW<Pay>>(n: usize, k: usize, mpmc: bool, sf: u
     } else {
         assert!(pending && got.is_none() && !ended, "C15: drained with a live sender: NotReady / Empty, never the end");
         assert!(a1.pos[i] == cur);
+        if !mpmc && a0.ncons[i] >= 2 && !uni {
+            assert!(rt::WATCH_HITS[1] >= 1, "C14: a receive attempt on a shared broadcast stream that ends without a value still notifies the producer wait list (it may have held a pin that a parked sender is waiting for)");
+        }
         if kind == PollKind::Shared || kind == PollKind::Uni {
             assert!(FWS_PARKED >= 1, "C14: a stream that got NotReady is parked on the consumer list");
             assert!(FWS_SEQ == cur && FWS_AT == &(*w.q.data.add(slot)).wraps as *const AtomicUsize as usize && FWS_WC == &w.q.writers as *const AtomicUsize as usize, "C08/C14: the task parks on the tag cell of the slot where its cursor's value will be published");
